@@ -3,8 +3,10 @@
 (* trace.ndjson holds one event per command executed by harness/cmd/h-peer    *)
 (* against the REAL code:  [cmd, res, post, (pre), (csn), (svclist)].         *)
 (*   pre/post = every row of the real state.Store, the three catalog tables   *)
-(*              row by row (modelled fields + x = hash of the complete row    *)
-(*              including raft indexes), everything else as [peer, tbl, x]    *)
+(*              row by row (modelled fields, each attribute with its copies:  *)
+(*              addr/maddr/taddr, ver/tag/meta, st/out; x = hash of the       *)
+(*              complete row including raft indexes), everything else as      *)
+(*              [peer, tbl, x]                                                *)
 (*   csn      = the real Store.CheckServiceNodes(svc, peer) after an update   *)
 (*   svclist  = the real Store.ServiceList(peer) after an exported list       *)
 (* Each step is judged locally: the property's predicates are evaluated on    *)
@@ -19,9 +21,13 @@ VARIABLE l
 
 Set(s) == ToSet(s)
 AbsCat(j) == [nodes |-> Set(j.nodes), svcs |-> Set(j.svcs), chks |-> Set(j.chks), rest |-> Set(j.rest)]
-CoreN(r) == [peer |-> r.peer, node |-> r.node, addr |-> r.addr]
-CoreS(r) == [peer |-> r.peer, node |-> r.node, id |-> r.id, name |-> r.name, ver |-> r.ver]
-CoreC(r) == [peer |-> r.peer, node |-> r.node, cid |-> r.cid, sid |-> r.sid, st |-> r.st]
+\* every abstract attribute is stored in several real fields; all copies must agree
+Addr(r) == IF r.maddr = r.addr /\ r.taddr = r.addr THEN r.addr ELSE "inconsistent"
+Ver(r) == IF r.tag = r.ver /\ r.meta = r.ver THEN r.ver ELSE "inconsistent"
+Stat(r) == IF r.out = r.st THEN r.st ELSE "inconsistent"
+CoreN(r) == [peer |-> r.peer, node |-> r.node, addr |-> Addr(r)]
+CoreS(r) == [peer |-> r.peer, node |-> r.node, id |-> r.id, name |-> r.name, ver |-> Ver(r)]
+CoreC(r) == [peer |-> r.peer, node |-> r.node, cid |-> r.cid, sid |-> r.sid, st |-> Stat(r)]
 Core(cat) == [nodes |-> {CoreN(r) : r \in cat.nodes}, svcs |-> {CoreS(r) : r \in cat.svcs},
               chks |-> {CoreC(r) : r \in cat.chks}, rest |-> cat.rest]
 
@@ -36,8 +42,8 @@ AbsCmd(c) ==
     [] c.t = "seed"   -> [t |-> "seed", rows |-> AbsRows(c.rows)]
     [] c.t = "export" -> [t |-> "export", peer |-> c.peer, cfg |-> AbsCfg(c.cfg), lsvcs |-> Set(c.lsvcs)]
     [] OTHER -> c
-AbsCSN(j) == {[node |-> e.node, id |-> e.id, ver |-> e.ver, addr |-> {e.addr},
-               checks |-> {[cid |-> c.cid, sid |-> c.sid, st |-> c.st] : c \in Set(e.checks)}] : e \in Set(j)}
+AbsCSN(j) == {[node |-> e.node, id |-> e.id, ver |-> Ver(e), addr |-> {Addr(e)},
+               checks |-> {[cid |-> c.cid, sid |-> c.sid, st |-> Stat(c)] : c \in Set(e.checks)}] : e \in Set(j)}
 
 PreF(i) == IF "pre" \in DOMAIN Trace[i] THEN AbsCat(Trace[i].pre) ELSE AbsCat(Trace[i - 1].post)
 F(name, ok) == IF ok THEN {} ELSE {name}
@@ -65,7 +71,8 @@ JudgeUpd(e, c, preF, postF) ==
   \* --- NonInterference (complete rows)
   \cup F("NIOtherPeers", NIOtherPeers(preF, postF, p))
   \cup F("NILocal", NILocal(preF, postF, p))
-  \cup F("NIRest", NIRest(preF, postF, p))
+  \cup F("NIRest", NIRestOther(preF, postF, p))
+  \cup F("NIRestGateway", NIRestGateway(preF, postF, p))
   \cup F("NISamePeer", NISamePeer(preF, postF, p, c.svc, c.snap))
   \cup F("SharedNodeKept", SharedNodeKept(preF, postF, p, c.svc, c.snap))
   \* --- conformance with the constructive specification (stale node checks are reported above, once)
@@ -84,7 +91,8 @@ JudgeList(e, c, preF, postF) ==
   \cup F("NodesExist", NodesExist(post, p) \/ ~NodesExist(pre, p))
   \cup F("NIOtherPeers", NIOtherPeers(preF, postF, p))
   \cup F("NILocal", NILocal(preF, postF, p))
-  \cup F("NIRest", NIRest(preF, postF, p))
+  \cup F("NIRest", NIRestOther(preF, postF, p))
+  \cup F("NIRestGateway", NIRestGateway(preF, postF, p))
   \cup F("conf", SameCatalog(Apply(pre, c), post))
 
 JudgeExport(e, c) ==
